@@ -148,9 +148,21 @@ def share_extra_case(rng):
     subs = ['N', 'F', 'Cl', 'O', 'OC']
     ea = [rng.choice(subs) for _ in range(rng.randint(0, 1))]
     eb = [rng.choice(subs) for _ in range(rng.randint(0 if ea else 1, 1))]
-    da = ['[!]'] + ['[$]'] * len(ea)                     # the shared pair first on the first fragment
-    db = ['[!]'] + ['[$]'] * len(eb)
-    rng.shuffle(db)                                      # any order on the second
+    labelled = rng.random() < 0.4
+    if labelled:
+        # every ordinary descriptor has its own label (no two of them fit each other), and the shared pair is written
+        # LAST on both copies: no atom of the description has '!' as its first descriptor
+        ea = ea or [rng.choice(subs)]
+        eb = eb or [rng.choice(subs)]
+        la = ['$a%d' % i for i in range(len(ea))]
+        lb = ['$b%d' % i for i in range(len(eb))]
+        da = ['[%s]' % l for l in la] + ['[!s]']
+        db = ['[%s]' % l for l in lb] + ['[!s]']
+    else:
+        la, lb = ['$'] * len(ea), ['$'] * len(eb)
+        da = ['[!]'] + ['[$]'] * len(ea)                     # the shared pair first on the first fragment
+        db = ['[!]'] + ['[$]'] * len(eb)
+        rng.shuffle(db)                                      # any order on the second
     frag_a = r1 + 'C' + ''.join(da)
     frag_b = 'C' + ''.join(db) + r2
     names, defs = [], ['#A=' + frag_a, '#B=' + frag_b]
@@ -158,15 +170,15 @@ def share_extra_case(rng):
     # atom are still there when the shared pair is matched
     k = 0
     inner = '[#B]'
-    for e in eb:
+    for e, l in zip(eb, lb):
         k += 1
         inner += '([#E%d])' % k
-        defs.append('#E%d=[$]%s' % (k, e))
+        defs.append('#E%d=[%s]%s' % (k, l, e))
     base = '[#A](' + inner + ')' if ea else '[#A]' + inner
-    for e in ea:
+    for e, l in zip(ea, la):
         k += 1
         base += '[#E%d]' % k
-        defs.append('#E%d=[$]%s' % (k, e))
+        defs.append('#E%d=[%s]%s' % (k, l, e))
     # reference molecule (heavy atoms)
     ref = nx.Graph()
 
